@@ -632,11 +632,13 @@ char *readline(const char *prompt)
     if (pos >= W.console.size() + 3) { sim_finish(HOW_QUIT_IGNORED, 0); }
     line = "quit";
   }
-  h->console_pos = pos + 1;
   sim_event(SEAM_READLINE, pos, hash_bytes(line, strlen(line)));
   if (prompt != NULL) { fputs(prompt, stdout); }
   fputs(line, stdout);
   fputc('\n', stdout);
+  // the command counts as executing only after its echo: a SIGINT planned "during" it is a Ctrl-C
+  // at the running program, not at the prompt
+  h->console_pos = pos + 1;
   size_t n = strlen(line);
   char *copy = (char *)__real_malloc(n + 1);
   memcpy(copy, line, n + 1);
